@@ -79,6 +79,11 @@ class SymCtx:
         self.ex.assume(cond)
 
     # ---- the deciding step
+    def inconclusive(self, label, why=""):
+        """the harness could not decide this obligation within its bounds: never a pass, never a violation"""
+        self.msgs[label] = why
+        self.results.append((label, "unknown", None))
+
     def record(self, name, value):
         """a JSON-able constant that belongs to the counterexample (e.g. a thread schedule)"""
         self.inputs[name] = ("const", value)
